@@ -129,6 +129,42 @@ pub fn gen(rng: &mut Rng) -> ConcCase {
         ctime_now.push(rng.chance(1, 5));
         scripts.push(c);
     }
+    if m >= 2 && rng.chance(1, 3) {
+        // twins: muxer 0's finish fails in its sink; muxer 1 has the same configuration and the same
+        // numbers of samples but another interleaving. Whatever muxer 0 leaves behind (in a thread, a
+        // static, a cache) must not show in muxer 1.
+        let mut kk = crate::gen::Knobs::functional();
+        kk.long_pct = 0;
+        kk.short_max = 6;
+        kk.audio_pct = 100;
+        kk.enc_api_pct = 0;
+        kk.bframes_pct = 0;
+        kk.start_offset_pct = 0;
+        kk.adversarial_order_pct = 0;
+        kk.audio_jitter_pct = 0;
+        for _ in 0..6 {
+            let (a, info) = crate::gen::gen_prog(rng, &kk);
+            if info.n_video >= 2 && info.n_audio >= 2 && a.cfg.audio_effective().is_some() {
+                let mut a = a;
+                a.cfg.sink = SinkKind::Sim;
+                let mut b = a.clone();
+                // same counts, other cross-track order: move every audio timestamp by a few video intervals
+                let shift = *rng.pick(&[0.07f64, 0.13, 0.4]);
+                for op in b.ops.iter_mut() {
+                    if let Op::Audio { pts, .. } = op {
+                        *pts = F(pts.0 + shift);
+                    }
+                }
+                a.faults = FaultPlan { at_call: vec![(rng.range(1, 8) as u32, Fault::ErrOnce(*rng.pick(&ERRK_ALL)))], ..Default::default() };
+                b.faults = FaultPlan::default();
+                scripts[0] = a;
+                scripts[1] = b;
+                ctime_now[0] = false;
+                ctime_now[1] = false;
+                break;
+            }
+        }
+    }
     let entropy = (0..threads).map(|_| rng.next_u64()).collect();
     let clock0 = *rng.pick(&[0i64, 1, 951782400, 1700000000, 4102444800, 253402300799, 32503680000]);
     ConcCase { scripts, threads, clock0, entropy, sched_seed: rng.next_u64(), decisions: Vec::new(), ctime_now, pair: None }
@@ -190,7 +226,7 @@ fn yield_hook() -> Arc<dyn Fn() + Send + Sync> {
 
 fn build_any(script: &ProgCase, now: bool) -> (Option<Box<dyn AnyMux>>, Res) {
     let mut cfg = script.cfg.clone();
-    let plan = FaultPlan { pattern: script.faults.pattern.clone(), ..Default::default() };
+    let plan = script.faults.clone();
     if now {
         // the builder call `Metadata::with_current_time()` is the one sanctioned clock read
         let t = muxide::api::Metadata::new().with_current_time().creation_time;
@@ -490,7 +526,9 @@ pub fn run_conc(case: &ConcCase) -> ConcOut {
 fn reference(script: &ProgCase, now: bool, clock0: i64) -> (Res, Vec<OpRec>, Vec<u8>) {
     let mut c = script.clone();
     c.cfg.sink = SinkKind::Sim;
-    c.faults = FaultPlan::default();
+    // short-write / Interrupted patterns must not matter (reference without them); a hard fault is part of
+    // the script's world and applies to the solo run as well (same call index => same outcome)
+    c.faults.pattern.clear();
     if now {
         let m = c.cfg.meta.get_or_insert_with(MetaCfg::default);
         m.ctime = Some(clock0.max(0) as u64);
